@@ -6,6 +6,7 @@ import (
 	"fmt"
 	"io"
 	"net"
+	"os"
 	"sync"
 	"time"
 
@@ -106,6 +107,10 @@ func (cc *clientCxn) RequestClose() {
 			cc.cxn.Close()
 		}
 		cc.queueStateChange(csTerminate, nil)
+
+		// a command of this client that is blocked (BLPOP...) ends now, so that
+		// the closed client stops competing for list elements
+		cc.cs.unblock("", false)
 	}
 }
 
@@ -246,6 +251,44 @@ func (cc *clientCxn) onDispatchCommand(cmd respValue) {
 			cc.queueStateChange(csWaitForCommand, nil)
 		}
 	}()
+}
+
+// While a command blocks, nothing reads the socket, so a client that closed
+// its connection would go unnoticed and keep competing for list elements.
+// This reads the socket until stop is called. Data that arrives (pipelined
+// commands) is kept for after the blocking command; an end of stream or a
+// read error closes the client and aborts the block.
+func (cc *clientCxn) WatchConnection() (stop func()) {
+	done := make(chan struct{})
+
+	go func() {
+		defer close(done)
+
+		buffer := make([]byte, 1024*8)
+		for {
+			n, err := cc.cxn.Read(buffer)
+			if n > 0 {
+				// the connection's state machine is idle while the command runs
+				cc.inbound = append(cc.inbound, buffer[0:n]...)
+			}
+			if err != nil {
+				if errors.Is(err, os.ErrDeadlineExceeded) {
+					// stop was called
+					return
+				}
+				cc.RequestClose()
+				cc.cs.unblock("", false)
+				return
+			}
+		}
+	}()
+
+	return func() {
+		// interrupt the read, wait for the goroutine, and restore normal reads
+		cc.cxn.SetReadDeadline(time.Unix(1, 0))
+		<-done
+		cc.cxn.SetReadDeadline(time.Time{})
+	}
 }
 
 func (cc *clientCxn) ServerAddr() string {
